@@ -73,7 +73,10 @@ def parseItem (toks : List String) : Option (Item × Option XW) := do
                else if o = "trunc" then some (Org.trunc x.status) else none)
     -- `req.Close` / `res.Close` are computed from the versions and Connection tokens
     pure (toItem x rq rs org, some x)
-  | some "cmitm" => do let t ← (kv toks "tls").bind parseBool; pure (.connectMitm t rq rs, none)
+  | some "cmitm" => do
+    let t ← (kv toks "tls").bind parseBool
+    -- `hf=<kind>`: the tunnel starts with a TLS handshake that fails
+    pure (if (kv toks "hf").isSome && t then .connectMitmFail rq rs else .connectMitm t rq rs, none)
   | some "cblind" => do let d ← (kv toks "dial").bind parseBool; pure (.connectBlind d rq rs, none)
   | _ => none
 
@@ -119,9 +122,9 @@ def upTls (i : Nat) : List Ev → String
   | .upstream j t :: r => if j == i then b t else upTls i r
   | _ :: r => upTls i r
 
-def summary (items : List Item) (xws : List (Option XW)) (evs : List Ev) (i : Nat) : String :=
+def summaryAt (it : Option Item) (xw : Option XW) (evs : List Ev) (i : Nat) : String :=
   if !(evs.any (isRead i)) then s!"{i}:unserved" else
-  let (wi, wattr) := writeInfo i items[i]? (xws[i]?.join) evs
+  let (wi, wattr) := writeInfo i it xw evs
   let (ri, tid) := reqInfo i evs
   s!"{i}:rq={countP (isReqmod i) evs},up={b (countP (isUpstream i) evs > 0)},uptls={upTls i evs}," ++
   -- response-side warnings are observable only on a response that is written to the client
@@ -142,6 +145,15 @@ def wireOp : List String → Option String
       let w := written x false (ask || resClose x)
       s!"rclose={b (resClose x)} pv=1{w.minor} fr={showFraming w.framing} cm={b w.saysClose}"
     | _, _, _, _, _ => "bad-op"
+  | ["pu.warning", n, hexLines, pre] => some <|
+    match n.toNat?, (if hexLines == "-" then some [] else unhex hexLines), pre.toNat? with
+    | some n, some raw, some pre =>
+      let dates : List Bytes := if n == 0 then [] else splitLines raw
+      let h : Go.Header := (if dates.isEmpty then [] else [(kDate, dates)]) ++
+        (if pre == 0 then [] else [(kWarning, List.replicate pre (strBytes "pre"))])
+      let h' := puWarning (fun m d => m ++ d) h (strBytes "e") (strBytes "now")
+      s!"n={(Go.Header.values h' kWarning).length} echo={b (!(Go.Header.get h kDate == []))}"
+    | _, _, _ => "bad-op"
   | _ => none
 
 /-- Does the connection still serve a further request after the listed items? -/
@@ -152,11 +164,24 @@ def stillOpen (s0 : Martian.Proxy.St) (shutdown : Bool) (items : List Item) : Bo
 def links (evs : List Ev) : List Nat := evs.filterMap fun | .link c => some c | _ => none
 def unlinks (evs : List Ev) : List Nat := evs.filterMap fun | .unlink c => some c | _ => none
 
+/-- The trace cut at its `read` events: the events of exchange `i` are the `i`-th piece (every
+exchange starts with its `read`; the bookkeeping at the end of the connection rides on the last
+piece, where nothing counts it). Only there to keep the summaries linear in the length of a long
+connection - `summary` sees exactly the events that carry index `i`. -/
+def pieces : List Ev → List (List Ev) → List Ev → List (List Ev)
+  | [], acc, cur => (cur.reverse :: acc).reverse
+  | .read i :: r, acc, cur => pieces r (cur.reverse :: acc) [.read i]
+  | e :: r, acc, cur => pieces r acc (e :: cur)
+
 def finish (s : St) : String :=
   let items := s.items.reverse
   let s0 : Martian.Proxy.St := if s.tlsListener then tlsListenerState else {}
   let evs := runConnOn s0 s.shutdown 0 items
-  let per := (List.range items.length).map (summary items s.xws.reverse evs)
+  let ps := ((pieces evs [] []).drop 1).toArray        -- piece 0 is what precedes the first read: nothing
+  let xws := s.xws.reverse.toArray
+  let its := items.toArray
+  let per := (List.range items.length).map fun i =>
+    summaryAt (its[i]?) ((xws[i]?).join) (ps[i]?.getD []) i
   let left := (links evs).filter (fun c => !(unlinks evs).contains c)
   " | ".intercalate per ++ s!" | open={b (!s.quiet && stillOpen s0 s.shutdown items)} ctxleft={left.length} distinct={b (links evs).Nodup}"
 
